@@ -1229,6 +1229,171 @@ Proof.
       specialize (Ho _ Hin). unfold quiet_class in Ho. rewrite Ha in Ho. discriminate.
 Qed.
 
+(* ================================================================================== the stronger form for policy -1 *)
+
+(* classes with dont_repeat_if_in_history = -1: compared with the robot's most recent comment, user comments
+   skipped *)
+Definition strict_msg (m : msg) : bool :=
+  match class_policy (m_cls m) with Some (Some z) => Z.eqb z (-1) | _ => false end.
+
+Definition strictb (c : comment) : bool :=
+  match c_body c with BMsg m => strict_msg m | BUser _ => false end.
+
+(* in a list of robot comments: no comment of a strict class equals the one before it *)
+Fixpoint quiet_ok (rs : list comment) : bool :=
+  match rs with
+  | a :: ((b :: _) as t) => negb (strictb b && body_eqb (c_body a) (c_body b)) && quiet_ok t
+  | _ => true
+  end.
+
+Definition robots (cs : list comment) : list comment := filter is_robot cs.
+
+Definition rep_strict (rs : list comment) (c : comment) : bool :=
+  match rev rs with
+  | a :: _ => strictb c && body_eqb (c_body a) (c_body c)
+  | [] => false
+  end.
+
+Lemma c10_rep_strict_cons : forall a rs c, rs <> [] -> rep_strict (a :: rs) c = rep_strict rs c.
+Proof.
+  intros a rs c H. unfold rep_strict. cbn [rev]. destruct (rev rs) as [|q t] eqn:R; [|reflexivity].
+  exfalso. apply H. apply (f_equal (@rev comment)) in R. rewrite rev_involutive in R. exact R.
+Qed.
+
+Lemma c10_qo_snoc : forall rs c, quiet_ok (rs ++ [c]) = quiet_ok rs && negb (rep_strict rs c).
+Proof.
+  induction rs as [|a rs IH]; intros c; [reflexivity|].
+  destruct rs as [|b t].
+  - cbn. rewrite andb_true_r. reflexivity.
+  - change ((a :: b :: t) ++ [c]) with (a :: ((b :: t) ++ [c])).
+    change (quiet_ok (a :: (b :: t) ++ [c]))
+      with (negb (strictb b && body_eqb (c_body a) (c_body b)) && quiet_ok ((b :: t) ++ [c])).
+    rewrite IH, (c10_rep_strict_cons a (b :: t) c); [|discriminate].
+    change (quiet_ok (a :: b :: t)) with (negb (strictb b && body_eqb (c_body a) (c_body b)) && quiet_ok (b :: t)).
+    rewrite andb_assoc. reflexivity.
+Qed.
+
+Lemma c10_robots_snoc_user : forall cs c, is_robot c = false -> robots (cs ++ [c]) = robots cs.
+Proof. intros cs c H. unfold robots. rewrite filter_app. cbn [filter]. rewrite H, app_nil_r. reflexivity. Qed.
+
+Lemma c10_robots_snoc_robot : forall cs c, is_robot c = true -> robots (cs ++ [c]) = robots cs ++ [c].
+Proof. intros cs c H. unfold robots. rewrite filter_app. cbn [filter]. rewrite H. reflexivity. Qed.
+
+Lemma c10_robots_delete : forall i cs, robots (filter (keep_on_delete i) cs) = robots cs.
+Proof.
+  intros i cs. unfold robots. induction cs as [|c cs IH]; [reflexivity|]. cbn [filter].
+  unfold keep_on_delete at 1. destruct (is_robot c) eqn:Hc; cbn [orb].
+  - cbn [filter]. rewrite Hc, IH. reflexivity.
+  - destruct (negb (Nat.eqb (c_id c) i)); [cbn [filter]; rewrite Hc|]; exact IH.
+Qed.
+
+Lemma c10_fc_scan_strict_none : forall b l,
+  fc_scan true (Some Robot) (Some b) l = None ->
+  match filter is_robot l with q :: _ => body_eqb (c_body q) b = false | [] => True end.
+Proof.
+  intros b l. induction l as [|a l IH]; intros H; [exact I|].
+  cbn [fc_scan] in H. rewrite c10_is_robot_matches in H. cbn [filter]. destruct (is_robot a) eqn:Ha; cbn [negb] in H.
+  - destruct (body_eqb (c_body a) b) eqn:E; [discriminate|reflexivity].
+  - apply IH. exact H.
+Qed.
+
+(* a posted comment of a strict class differs from the robot's most recent comment *)
+Lemma c10_notify_strict : forall cs n m c,
+  notify false cs n m = NPosted c -> rep_strict (robots cs) c = false.
+Proof.
+  intros cs n m c H. pose proof (c10_notify_posted_shape _ _ _ _ H) as Hc.
+  unfold rep_strict. destruct (rev (robots cs)) as [|q t] eqn:R; [reflexivity|].
+  destruct (strictb c) eqn:S; [|reflexivity]. cbn [andb].
+  subst c. cbn [strictb c_body] in *. unfold strict_msg in S. unfold notify in H.
+  destruct (class_policy (m_cls m)) as [[z|]|]; try discriminate. apply Z.eqb_eq in S. subst z.
+  unfold send_comment in H. cbn [negb truthy Z.eqb] in H.
+  destruct (find_comment cs (Some Robot) (Some (BMsg m)) (Some (-1)%Z)) eqn:F; try discriminate.
+  unfold find_comment in F. cbn [Z.eqb Pos.eqb] in F.
+  destruct (fc_scan true (Some Robot) (Some (BMsg m)) (rev cs)) eqn:E; [discriminate|].
+  apply c10_fc_scan_strict_none in E. unfold robots in R. rewrite c10_rev_filter in R. rewrite R in E. exact E.
+Qed.
+
+Lemma c10_do_notify_strict : forall r m r',
+  do_notify false r m = Some r' -> quiet_ok (robots (r_cs r)) = true -> quiet_ok (robots (r_cs r')) = true.
+Proof.
+  intros r m r' H Hq. apply c10_do_notify_cases in H. destruct H as [[H _]|[c [N [Hc H]]]]; subst r'; [exact Hq|].
+  cbn [r_cs]. rewrite c10_robots_snoc_robot; [|subst c; reflexivity].
+  rewrite c10_qo_snoc, Hq, (c10_notify_strict _ _ _ _ N). reflexivity.
+Qed.
+
+Lemma c10_do_notify_all_strict : forall ms r r',
+  do_notify_all false r ms = Some r' -> quiet_ok (robots (r_cs r)) = true -> quiet_ok (robots (r_cs r')) = true.
+Proof.
+  induction ms as [|m ms IH]; intros r r' H Hq; cbn [do_notify_all] in H.
+  - inversion H; subst. exact Hq.
+  - destruct (do_notify false r m) as [r1|] eqn:D; [|discriminate].
+    apply (IH _ _ H). apply (c10_do_notify_strict _ _ _ D Hq).
+Qed.
+
+Lemma c10_eval_strict : forall o cs next ex app,
+  eval_step false o cs next = Some (ex, app) ->
+  quiet_ok (robots cs) = true -> quiet_ok (robots (cs ++ app)) = true.
+Proof.
+  intros o cs next ex app H Hq. unfold eval_step in H.
+  pose proof (c10_run_ok_init cs next) as Hok0.
+  destruct (o_early o) as [[m|]|].
+  - destruct (do_notify false (mk_run cs next []) m) as [r|] eqn:D; [|discriminate]. inversion H; subst.
+    destruct (c10_do_notify_ok cs next _ _ _ Hok0 D) as [R1 _]. rewrite <- R1.
+    apply (c10_do_notify_strict _ _ _ D). exact Hq.
+  - inversion H; subst. rewrite app_nil_r. exact Hq.
+  - destruct (greet false (mk_run cs next [])) as [r1|] eqn:G; [|discriminate].
+    destruct (c10_greet_cases _ _ _ G) as [Hok1 _].
+    assert (Hq1 : quiet_ok (robots (r_cs r1)) = true).
+    { unfold greet in G. cbn [r_cs] in G. destruct (find_comment cs (Some Robot) None None); try discriminate.
+      - inversion G; subst. exact Hq.
+      - apply (c10_do_notify_strict _ _ _ G). exact Hq. }
+    destruct (o_opt o) as [m|].
+    + destruct (do_notify false r1 m) as [r|] eqn:D; [|discriminate]. inversion H; subst.
+      destruct (c10_do_notify_ok cs next _ _ _ Hok1 D) as [R1 _]. rewrite <- R1.
+      apply (c10_do_notify_strict _ _ _ D Hq1).
+    + destruct (scan_commands o (pending (r_cs r1)) []) as [ex'|ex' m].
+      * destruct (do_notify_all false r1 (o_rest o)) as [r|] eqn:D; [|discriminate]. inversion H; subst.
+        destruct (c10_do_notify_all_ok _ cs next _ _ Hok1 D) as [R1 _]. rewrite <- R1.
+        apply (c10_do_notify_all_strict _ _ _ D Hq1).
+      * destruct (do_notify false r1 m) as [r|] eqn:D; [|discriminate]. inversion H; subst.
+        destruct (c10_do_notify_ok cs next _ _ _ Hok1 D) as [R1 _]. rewrite <- R1.
+        apply (c10_do_notify_strict _ _ _ D Hq1).
+Qed.
+
+(* every history, deletions included, any oracles: among the robot's comments no message of a class with policy
+   -1 equals the robot's previous comment *)
+Theorem c10_no_repeat_strict : forall tr w w',
+  quiet_ok (robots (w_cs w)) = true -> run_trace false w tr = Some w' -> quiet_ok (robots (w_cs w')) = true.
+Proof.
+  induction tr as [|e tr IH]; intros w w' Hq H; cbn [run_trace] in H.
+  - inversion H; subst. exact Hq.
+  - destruct (step false w e) as [w1|] eqn:S; [|discriminate]. refine (IH _ _ _ H).
+    destruct e as [u x|i|o]; cbn [step] in S.
+    + inversion S; subst. cbn [w_cs]. rewrite c10_robots_snoc_user; [exact Hq|reflexivity].
+    + inversion S; subst. cbn [w_cs]. rewrite c10_robots_delete. exact Hq.
+    + destruct (eval_step false o (w_cs w) (w_next w)) as [[ex app]|] eqn:E; [|discriminate].
+      inversion S; subst. cbn [w_cs]. apply (c10_eval_strict _ _ _ _ _ E Hq).
+Qed.
+
+(* which classes this covers, with the Facts: every template class except the four answers-on-request / the two
+   informational ones *)
+Lemma c10_strict_classes :
+  map (fun e => fst (fst (fst e)))
+      (filter (fun e => match class_policy (fst (fst (fst e))) with
+                        | Some p => negb (match p with Some z => Z.eqb z (-1) | None => false end)
+                        | None => false
+                        end) message_classes)
+  = ["InformationException"; "InitMessage"; "HelpMessage"; "CommandNotImplemented"; "StatusReport";
+     "IntegrationDataCreated"; "PartialMerge"; "ResetComplete"; "LossyResetWarning"]
+  \/ map (fun e => fst (fst (fst e)))
+      (filter (fun e => match class_policy (fst (fst (fst e))) with
+                        | Some p => negb (match p with Some z => Z.eqb z (-1) | None => false end)
+                        | None => false
+                        end) message_classes)
+  = ["InformationException"; "InitMessage"; "HelpMessage"; "CommandNotImplemented"; "StatusReport";
+     "IntegrationDataCreated"; "PartialMerge"].
+Proof. vm_compute. first [left; reflexivity | right; reflexivity]. Qed.
+
 (* ================================================================================== C10_instance *)
 
 Definition no_shared (s : list (string * sval)) : Prop := Forall (fun e => snd e <> SShared) s.
@@ -1357,7 +1522,7 @@ Definition ex_oracle : oracle :=
 Example c10_example_history :
   match run_trace false world0 [EvEval ex_oracle; EvComment 1 (UCall "help"); EvEval ex_oracle;
                                 EvComment 1 (UCall "help"); EvEval ex_oracle; EvEval ex_oracle] with
-  | Some w => w_log w = [2; 4] /\ List.length (w_cs w) = 6 /\ twice_in_a_row (w_cs w) = false
+  | Some w => w_log w = [2; 4] /\ List.length (w_cs w) = 7 /\ twice_in_a_row (w_cs w) = false
   | None => False
   end.
 Proof. vm_compute. repeat split. Qed.
